@@ -203,6 +203,7 @@ trait ArchOps {
         out: &mut Vec<String>,
     );
     fn generation(u: &Self::U) -> u16;
+    fn sp_fp(r: &Self::Regs) -> (u64, u64);
     fn exec(t: &mut Toks, mems: &HashMap<String, HashMap<u64, u64>>) -> String;
     fn analyze(kind: u8, bytes: &[u8], off: usize) -> String;
 }
@@ -469,6 +470,9 @@ impl<P: AllocationPolicy> ArchOps for X86<P> {
     fn generation(u: &Self::U) -> u16 {
         u.verif_modules_generation()
     }
+    fn sp_fp(r: &Self::Regs) -> (u64, u64) {
+        (r.sp(), r.bp())
+    }
     fn exec(t: &mut Toks, mems: &HashMap<String, HashMap<u64, u64>>) -> String {
         let rule = parse_rule_x86(t);
         let first = t.u64() != 0;
@@ -527,6 +531,9 @@ impl<P: AllocationPolicy> ArchOps for A64<P> {
     }
     fn generation(u: &Self::U) -> u16 {
         u.verif_modules_generation()
+    }
+    fn sp_fp(r: &Self::Regs) -> (u64, u64) {
+        (r.sp(), r.fp())
     }
     fn exec(t: &mut Toks, mems: &HashMap<String, HashMap<u64, u64>>) -> String {
         let rule = parse_rule_a64(t);
@@ -806,6 +813,55 @@ fn run<A: ArchOps>(lines: Vec<String>, hang_ms: u64) {
                                 format!("iter {}", outv.join(" | "))
                             }
                         }
+                    }
+                    _ => "bad".into(),
+                }
+            }
+            "trace" => {
+                // like `manual`, but every item also shows sp and fp after the step (C10 / C11)
+                let uid = t.next();
+                let cid = t.next();
+                let pc = t.u64();
+                let mut regs = A::parse_regs(&mut t);
+                let memid = t.next();
+                let n = t.usize();
+                match (unws.get(uid), caches.get_mut(cid), mems.get(memid)) {
+                    (Some(u), Some(c), Some(mem)) => {
+                        let mut rs = reader(mem);
+                        let mut outv: Vec<String> = Vec::new();
+                        let r = catch_unwind(AssertUnwindSafe(|| {
+                            let mut addr = FrameAddress::from_instruction_pointer(pc);
+                            let (s0, f0) = A::sp_fp(&regs);
+                            outv.push(format!("ok ip 0x{:x} sp=0x{:x} fp=0x{:x}", pc, s0, f0));
+                            for _ in 1..n {
+                                let r = A::unwind(u, addr, &mut regs, c, &mut rs);
+                                let (s1, f1) = A::sp_fp(&regs);
+                                match r {
+                                    Ok(Some(ra)) => match FrameAddress::from_return_address(ra) {
+                                        Some(fa) => {
+                                            addr = fa;
+                                            outv.push(format!("ok ra 0x{:x} sp=0x{:x} fp=0x{:x}", ra, s1, f1));
+                                        }
+                                        None => {
+                                            outv.push("err ReturnAddressIsNull".into());
+                                            break;
+                                        }
+                                    },
+                                    Ok(None) => {
+                                        outv.push("ok none".into());
+                                        break;
+                                    }
+                                    Err(e) => {
+                                        outv.push(fmt_err(&e));
+                                        break;
+                                    }
+                                }
+                            }
+                        }));
+                        if r.is_err() {
+                            outv.push(classify_panic());
+                        }
+                        format!("iter {}", outv.join(" | "))
                     }
                     _ => "bad".into(),
                 }
